@@ -109,7 +109,7 @@ fn layout_id(top: u64, res: i32, s: u64) -> u64 {
 pub fn gen_c05(tier: &str, seed: u64, out: &str, mc_replay: Option<&str>) -> Value {
     let mut rng = Rng::new(seed ^ 0xC05);
     let mut t = Trace::new(out, "c05", 1500);
-    let exhaustive_to = if tier == "thorough" { 7 } else { 5 };
+    let exhaustive_to = if tier == "thorough" { 8 } else { 5 };
     let mut n_codec = 0u64;
     let mut ids_seen: Vec<u64> = vec![];
     // world cell
